@@ -38,6 +38,9 @@ func TestMain(m *testing.M) {
 	glue.SilenceKlog()
 	pool = gen.NewPool(glue.NewCollectorPoolArgs())
 	if rp := ev.LoadReplay(); rp != nil {
+		if rp.Phase == "late_registration" {
+			ev.RunReplay(rp, runLate)
+		}
 		ev.RunReplay(rp, runCase)
 	}
 	rec = ev.New("C17", "templates of 1..30 fields interleaving registry elements with unknown ones (unassigned IANA ids, unknown ids in enterprises 29305/56506, unknown enterprises; fixed lengths 1..64 and variable length; first/middle/last positions and adjacent runs), 1..5 records with variable-length values straddling 255, the same wire bytes given to a strict, a keep and a drop collector plus a collector that gets the case with the unknown fields deleted; non-trivial = at least one unknown and one known element; distinct by hash of the case",
